@@ -1,7 +1,7 @@
 #!/bin/sh
 # Build the offline overlay venv used by ./check (idempotent).
 set -e
-V=/verif/.venv
+V="$(cd "$(dirname "$0")" && pwd)/.venv"
 if [ -x "$V/bin/python" ] && "$V/bin/python" -c "import z3, crosshair, numpy, scipy" 2>/dev/null; then
   exit 0
 fi
